@@ -365,7 +365,7 @@ fn run(ctx: &Ctx) -> Acc {
     let alpha = c12::alphabet();
     for (ci, cfg) in c12::gen_cfgs(ctx.tier.thorough(), alpha.ops.len()).iter().enumerate() {
         gen::for_each(cfg, |n, spec| {
-            if ci == 1 && spec.n() < 3 {
+            if ci >= 1 && spec.n() < 3 {
                 return true;
             }
             if !ctx.mine(n) {
